@@ -28,7 +28,7 @@ static int do_init(int i, uint64_t pat, size_t *psize, int *ret)
     union { CtrObj c; ParObj p; } o;
     Cipher c = (Cipher)(i % 3);
     int be;
-    memset(&o, 0, sizeof(o));
+    memset(&o, g_paint, sizeof(o));   /* the caller's object is uninitialised memory: whatever the pattern of this case is */
     *psize = 0;
     verif_paint_stack();
     g_in_lib = 1;
